@@ -1679,6 +1679,27 @@ class Evaluator:
             if name == "reverse":
                 recv.reverse()
                 return None
+        if isinstance(recv, SliceV) and name == "indices" and len(args) == 1:
+            # slice.indices(n): bounds made non-negative and clamped to [0, n]; decided by the sign facts or not at all
+            n_ = Lin.of(args[0])
+            if n_ is None or recv.step not in (None, 1):
+                raise Unmodelled("slice.indices with a step or an unknown length", node)
+
+            def norm_bound(b, default):
+                if b is None:
+                    return default
+                lb = Lin.of(b)
+                if lb is None:
+                    raise Unmodelled("slice.indices of an unknown bound", node)
+                sg = self.sign(lb)
+                if sg == "neg":
+                    lb = lb + n_
+                    sg = self.sign(lb)
+                if sg not in ("pos", "zero", "nonneg") or self.sign(n_ - lb) not in ("pos", "zero", "nonneg"):
+                    raise Unmodelled(f"slice.indices: bound {b!r} cannot be placed within [0, {args[0]!r}]", node)
+                return simplify(lb)
+
+            return (norm_bound(recv.lo, 0), norm_bound(recv.hi, simplify(n_)), 1)
         if isinstance(recv, tuple):
             if name == "index":
                 for i, x in enumerate(recv):
